@@ -159,10 +159,10 @@ def one(rec, hub, seed, tier, i):
     omit = rng.random() < 0.4
     if vname in [s[0] for s in spec]:
         vname = "value"
-    df, info = F.render(spec, recs, rng, layout=layout, wide_dim=wide_dim, header=header, in_index=in_index, vname=vname, omit_single=omit)
+    df, info = F.render(spec, recs, rng, layout=layout, wide_dim=wide_dim, header=header, in_index=in_index, vname=vname, omit_single=omit, unnamed_year_index=bool(i % 6 == 4))
     if csv:
         has_index = not isinstance(df.index, pd.RangeIndex) or df.index.names != [None]
-        named = df.index.names != [None]
+        named = df.index.names != [None] or bool(info.get("unnamed_year_index"))  # an index that holds a dimension is written out
         df = F.csv_roundtrip(df, index=bool(named))
     if layout == "long" and header in ("names", "letters") and not csv and in_index == "none" and i % 11 == 0:
         # last sentence of the property: an entry comes from the UNIQUE row carrying its labels.  A second row for an entry whose
